@@ -263,6 +263,10 @@ func genExp(r *rand.Rand, id, maxLines, maxLen int) *Exp {
 	if n > 0 && r.Intn(2) == 0 {
 		nmut = 1 + r.Intn(2)
 	}
+	chain := n >= 3 && r.Intn(6) == 0 // several ADJACENT line terminators lost: three or more records glued into one line
+	if chain {
+		nmut = 0
+	}
 	lines := make([][]byte, n)
 	for i := 0; i < n; i++ {
 		rec := Rec{Ts: genTs(r), B: genBytes(r, maxLen)}
@@ -322,6 +326,13 @@ func genExp(r *rand.Rand, id, maxLines, maxLen int) *Exp {
 			g.Ch = int(ln[g.At-1]) + 32
 		}
 		e.feat("mut:" + g.Kind)
+	}
+	if chain {
+		at := r.Intn(n - 2)
+		for i := at; i < at+2+r.Intn(3) && i < n-1; i++ {
+			e.Segs[i].Kind, e.Segs[i].At = "noterm", len(lines[i])
+		}
+		e.feat("mut:noterm_chain")
 	}
 	for i := 0; i < n; i++ {
 		e.Text = append(e.Text, mutate(lines[i], &e.Segs[i])...)
